@@ -39,7 +39,7 @@ type Case struct {
 	Ops  []Op `json:"ops"`
 }
 
-var vias = []string{"id", "op", "lit", "dot", "call", "add", "index", "qual", "tag", "tag"}
+var vias = []string{"id", "op", "lit", "dot", "call", "add", "index", "qual", "tag", "tag", "caseblock", "defaultblock"}
 
 func genCase(maxOps int) func(t *rapid.T) Case {
 	return func(t *rapid.T) Case {
@@ -151,6 +151,14 @@ func check(c Case) error {
 			a, b := next(), next()
 			s.Call(jen.Id(a), jen.Id(b))
 			return []string{"(", a, ",", b, ")"}
+		case "caseblock": // a case clause: the Block directly after Case renders without braces
+			a, b := next(), next()
+			s.Case(jen.Id(a)).Block(jen.Id(b))
+			return []string{"case", a, ":", b}
+		case "defaultblock":
+			a := next()
+			s.Default().Block(jen.Id(a))
+			return []string{"default", ":", a}
 		case "tag":
 			a := next()
 			s.Tag(map[string]string{"k": a})
@@ -200,27 +208,32 @@ func check(c Case) error {
 	// and is rendered after every step — what a File remembers between renders must not go stale
 	pf := jen.NewFile("p")
 	pf.NoFormat = true
+	pf.Add(jen.Id("ZZSEP"))
 	pf.Add(orig)
 	renderAll := func() ([][]string, error) {
 		buf := &bytes.Buffer{}
 		if err := pf.Render(buf); err != nil {
 			return nil, err
 		}
+		toks, err := scanLine(strings.TrimPrefix(buf.String(), "package p\n\n"))
+		if err != nil {
+			return nil, err
+		}
 		var out [][]string
-		for _, line := range strings.Split(strings.TrimPrefix(buf.String(), "package p\n\n"), "\n") {
-			if strings.TrimSpace(line) == "" {
+		for _, t := range toks {
+			if t == "ZZSEP" {
+				out = append(out, nil)
 				continue
 			}
-			toks, err := scanLine(line)
-			if err != nil {
-				return nil, err
+			if len(out) == 0 {
+				return nil, fmt.Errorf("output does not start with the separator: %q", buf.String())
 			}
-			out = append(out, toks)
+			out[len(out)-1] = append(out[len(out)-1], t)
 		}
 		return out, nil
 	}
 	verify := func(step int, what string) error {
-		if c.Init > 0 {
+		{
 			lines, err := renderAll()
 			if err != nil {
 				return fmt.Errorf("step %d (%s): File holding all statements: %v", step, what, err)
@@ -263,6 +276,7 @@ func check(c Case) error {
 			}
 			cl := list[i].s.Clone()
 			list = append(list, &st{s: cl, parent: i, snap: cur})
+			pf.Add(jen.Id("ZZSEP"))
 			pf.Add(cl)
 			got, err := render(cl)
 			if err != nil {
@@ -346,7 +360,7 @@ func classify(r *hx.Run, c Case) {
 func TestC20(t *testing.T) {
 	r := hx.Start(t, "C20")
 	defer r.Finish(t)
-	r.Rule("rapid-generated histories of append/clone operations (appends via Id, Op, Lit, Dot, Call, Index, Qual, Tag, Add with 0..9 items; every statement is rendered on its own through a fresh File and, as a line of one File that holds all statements and is rendered after every step); non-trivial = the history has a clone taken when its original had >= 3 items, followed by appends to both the original and that clone; distinct by the full history")
+	r.Rule("rapid-generated histories of append/clone operations (appends via Id, Op, Lit, Dot, Call, Index, Qual, Tag, Case+Block, Default+Block, Add with 0..9 items; every statement is rendered on its own through a fresh File and, as a line of one File that holds all statements and is rendered after every step); non-trivial = the history has a clone taken when its original had >= 3 items, followed by appends to both the original and that clone; distinct by the full history")
 	r.Assume("go/scanner token stream of a NoFormat File render is taken as 'the rendering' of a statement")
 	maxOps := 60
 	if r.Thorough() {
